@@ -878,10 +878,15 @@ class Opa:
         """a handful of std callees with an exact meaning on fully known arguments"""
         p = strip_generics(callee)
         a0 = argv[0] if argv else None
-        if p in ('std::cmp::PartialEq::eq', 'std::cmp::PartialEq::ne') and len(argv) == 2 and \
-                all(x is not None and x[0] == 'variant' and not x[3] for x in argv) and argv[0][1] == argv[1][1]:
-            same = argv[0][2] == argv[1][2]
-            return ('const', int(same if p.endswith('::eq') else not same))
+        if p in ('std::cmp::PartialEq::eq', 'std::cmp::PartialEq::ne') and len(argv) == 2:
+            ev = []
+            for x in argv:
+                while x is not None and x[0] in ('ref', 'mut'):
+                    x = x[1]
+                ev.append(x)
+            if all(x is not None and x[0] == 'variant' and not x[3] for x in ev) and ev[0][1] == ev[1][1]:
+                same = ev[0][2] == ev[1][2]
+                return ('const', int(same if p.endswith('::eq') else not same))
         if p in ('std::option::Option::is_some', 'std::option::Option::is_none') and a0 is not None:
             if a0[0] == 'variant' and a0[1] == 'std::option::Option':
                 v = a0[2] == 1
